@@ -148,6 +148,8 @@ class Materializer:
             if sig and ap is None:
                 ap = b''
             wire = bytes(enc.make_interest(name, ip, ap, signer=_signer(sig, for_interest=True)))
+            if spec.get('no_sigvalue') and sig:
+                wire = self._drop_sigvalue(wire)
             if spec.get('bad_digest'):
                 wire = self._break_digest(wire)
             if spec.get('digest_from') is not None:
@@ -164,6 +166,20 @@ class Materializer:
             base = self.outer_of(spec['base'])
             return apply_mutation(base, spec['m'])
         raise HarnessError(f'unknown packet kind {k}')
+
+    @staticmethod
+    def _drop_sigvalue(wire):
+        """a signed Interest without its InterestSignatureValue element (SignatureInfo stays), parameters digest re-computed"""
+        _typ, vs, ve = tlvref.single(wire)
+        els = tlvref.elements(wire, vs, ve)
+        old = tlvref.parse_interest(wire).params_digest
+        body = b''.join(wire[s_:e_] for (t_, s_, _v, e_) in els if t_ != 0x2e)
+        tail = b''.join(wire[s_:e_] for (t_, s_, _v, e_) in els if t_ in (0x24, 0x2c))
+        if old is None or not tail:
+            return wire
+        idx = body.find(old)
+        body = body[:idx] + hashlib.sha256(tail).digest() + body[idx + 32:]
+        return tlvref.tlv(0x05, body)
 
     @staticmethod
     def _break_digest(wire):
@@ -275,10 +291,14 @@ def classify(wire, lp_mode='lib'):
                 lp = tlvref.parse_lp(wire)
             except tlvref.TlvError:
                 return _classify(wire)
+            if lp.frag_index in (None, 0) and lp.frag_count == 1:
+                return {'kind': 'unclear', 'why': 'fragment 0 of 1'}      # an unfragmented packet that says so
             if lp.frag_index is not None or lp.frag_count is not None:
                 return {'kind': 'junk', 'why': 'fragmented'}
             if not lp.in_order:
                 return {'kind': 'junk', 'why': 'headers-out-of-order'}
+            if lp.repeated_single:
+                return {'kind': 'unclear', 'why': 'repeated header'}
             if not lp.fragment:
                 return {'kind': 'junk', 'why': 'idle'}
             if lp.nack:
@@ -296,8 +316,12 @@ def classify(wire, lp_mode='lib'):
             # (FragIndex or FragCount present) addresses nothing
             try:
                 lp = tlvref.parse_lp(wire)
+                if lp.frag_index in (None, 0) and lp.frag_count == 1:
+                    return {'kind': 'unclear', 'why': 'fragment 0 of 1'}      # an unfragmented packet that says so
                 if lp.frag_index is not None or lp.frag_count is not None:
                     return {'kind': 'junk', 'why': 'fragmented'}
+                if lp.in_order and lp.repeated_single:
+                    return {'kind': 'unclear', 'why': 'repeated header'}
                 if not lp.in_order:
                     # header fields out of order / behind the Fragment: a decoder that silently skips them reads another
                     # packet than the sender wrote
@@ -559,6 +583,8 @@ class PipeWorld(World):
         validator = self.make_validator(op.get('validator'), ('express', iid))
         kwargs = dict(can_be_prefix=op.get('cbp', False), must_be_fresh=op.get('mbf', False),
                       lifetime=op.get('lifetime', 4000), nonce=1000 + iid)
+        if op.get('need_raw') and self.fe == 'v1':
+            kwargs['need_raw_packet'] = True
         pobj = None
         if op.get('param_obj'):
             # the caller keeps ONE InterestParam object, passes it in and re-uses (edits) it for its next Interest
@@ -605,6 +631,16 @@ class PipeWorld(World):
             res = await coro
             if self.fe == 'v2':
                 dname, content, _ctx = res
+            elif op.get('need_raw'):
+                dname, _mi, content, raw = res
+                try:
+                    rp = tlvref.parse_data(bytes(raw))
+                    if [bytes(c) for c in rp.name] != [bytes(c) for c in dname]:
+                        raise tlvref.TlvError('another packet')
+                except tlvref.TlvError:
+                    self.violate('C03', 'raw-packet', self.fe, 'express',
+                                 f'Interest {iid}: the raw packet handed out with Data {tlvref.name_tlv([bytes(c) for c in dname]).hex()} is not that Data packet: '
+                                 f'{bytes(raw)[:24].hex()}...')
             else:
                 dname, _mi, content = res
             self.log('done', id=iid, out='data', name=[bytes(c) for c in dname],
